@@ -72,7 +72,7 @@ CHECKS = {
     ref="DESIGN.md §5 C19"),
  "C04": dict(
     technique="Lean 4 proof (merge_spec by induction on the recursion with frame lemmas, for every tree depth; exactness of every split after every history of sessions; recorded totals = enumeration totals) + differential correspondence of the shards_list.json documents after every session of generated histories, and an independent recount oracle",
-    text="C04_merge_exact, C04_session_exact, C04_history_exact, C04_touched_split_recorded, C04_counts, C04_written_listed (+ C03_iter_order, C03_merge_keeps_update_order). "
+    text="C04_merge_exact, C04_session_exact, C04_history_exact, C04_touched_split_recorded, C04_counts, C04_written_listed, C04_no_shard_listed_twice (no file name is enumerated twice after any history of sessions with freshly named shards), C04_every_written_shard_is_enumerated (+ C03_iter_order, C03_merge_keeps_update_order). "
          "Histories over root / fresh / reused / nested sub-directory fillers and multi-writer calls are executed on the real API; after every session the canonicalised list "
          "documents must equal the model's store, and the tree is recounted from disk (decode every shard, no file listed twice or unlisted, handle == fresh open, check() passes).",
     note="Per-shard counts come from M-FILL (C10). pydantic (de)serialisation and the shard decoders are modelled-not-verified; multi-writer calls run single_process here (real processes: C09).",
